@@ -87,6 +87,29 @@ func allocCases(r *rng, thorough bool) []allocCase {
 		rjson.Valid(d, buf) // warm on the same document (at least as deeply nested)
 		rjson.SkipValueFast(d, buf)
 		rjson.Valid(d, inner)
+		// failing / rejected calls with the warmed buffers must not cost the warmth
+		for _, bad := range [][]byte{{}, []byte(" "), []byte("nope"), []byte("tru"), []byte("\"a\x01\""), []byte("[[[1,]]]"), []byte("{\"a\":"), []byte("[1 2]")} {
+			rjson.Valid(bad, buf)
+			rjson.SkipValue(bad, buf)
+			rjson.SkipValueFast(bad, buf)
+			rjson.HandleArrayValues(bad, &quietArr{inner: inner, mode: 1}, buf)
+			rjson.HandleObjectValues(bad, &quietObj{inner: inner, mode: 1}, buf)
+			rjson.SkipValue(bad, inner)
+		}
+		// ... measured: a rejected call followed by a successful one on the warmed buffer.  The
+		// rejected inputs used here end in package-level sentinel errors (no allocation of their
+		// own); cmdAllocs subtracts what the rejected call alone costs.
+		for bi, bad := range [][]byte{{}, []byte("nope"), []byte("[[[1,]]]")} {
+			bad := bad
+			add(fmt.Sprintf("Valid-after-rejected-call/%d", bi), d, func() bool { rjson.Valid(bad, buf); return rjson.Valid(d, buf) })
+			add(fmt.Sprintf("SkipValue-after-rejected-call/%d", bi), d, func() bool { rjson.SkipValue(bad, buf); _, err := rjson.SkipValue(d, buf); return err == nil })
+			hq := &quietArr{inner: inner, mode: 0}
+			add(fmt.Sprintf("HandleArrayValues-after-rejected-call/%d", bi), d, func() bool {
+				rjson.SkipValueFast(bad, buf)
+				_, err := rjson.HandleArrayValues(d, hq, buf)
+				return err == nil
+			})
+		}
 		add("Valid", d, func() bool { return rjson.Valid(d, buf) })
 		add("SkipValue", d, func() bool { _, err := rjson.SkipValue(d, buf); return err == nil })
 		add("SkipValueFast", d, func() bool { _, err := rjson.SkipValueFast(d, buf); return err == nil })
